@@ -228,6 +228,9 @@ def parseTVal (tok : String) : Option TextCodec.TVal :=
   | ["l", h] =>
     if h == "-" then some (.ss [])
     else (h.splitOn ",").mapM (fun (x : String) => if x == "~" then some [] else unhex x) |>.map TextCodec.TVal.ss
+  | ["t", h] =>
+    if h == "-" then some (.nl [])
+    else (h.splitOn ",").mapM (fun (x : String) => x.toNat?) |>.map TextCodec.TVal.nl
   | _ => none
 
 def showTVal : TextCodec.TVal → String
@@ -235,6 +238,8 @@ def showTVal : TextCodec.TVal → String
   | .s t => "s:" ++ hex t
   | .ss [] => "l:-"
   | .ss strs => "l:" ++ ",".intercalate (strs.map (fun x => if x.isEmpty then "~" else hex x))
+  | .nl [] => "t:-"
+  | .nl ks => "t:" ++ ",".intercalate (ks.map toString)
 
 /-- `text.print <Type> vals…`: the RDATA text the translated `String()` prints -/
 def textPrint (typ : String) (args : List String) : String :=
